@@ -162,12 +162,13 @@ Step(e) ==
   /\ Check(l, "L8.DeleteWhenSessionEnds", (last /\ InitId(e) # "" /\ ~\E i \in Idx(e) : e.reqs[i].cls = "404" /\ e.reqs[i].meth = "POST")
         => Cardinality(dels) = 1)
   /\ Check(l, "L8.CloseReturns", (e.closeiss > 0 /\ ~Debt(e)) => e.closeret = e.closeiss)
+  /\ Check(l, "L8.DeleteBounded", (e.op = "Ans" /\ e.a1 = "del" /\ e.a2 = "timeout" /\ e.applied) => ~DelOpen(e))
+  /\ Check(l, "L8.DeleteBounded", last => ~DelOpen(e))
   /\ Check(l, "L8.CloseWaitsForCalls", e.closeret > 0 => \A j \in DOMAIN e.calls :
         e.calls[j].st = "pending" => ReqOwed(e, CallTagOf(e.calls[j].k)))
   /\ Check(l, "L8.NoRequestAfterClose", e.closeretstep > 0 => \A i \in Sent(e) : e.reqs[i].att = 1 => e.reqs[i].step <= e.closeretstep)
   /\ Check(l, "L8.StandaloneCancelled", (e.closeret > 0 \/ e.waitret) => \A i \in Idx(e) : e.reqs[i].meth = "GET" => e.reqs[i].rbody # "open")
-  /\ Check(l, "L8.NothingLeft.stream", last => \A i \in Idx(e) : e.reqs[i].meth = "POST" => e.reqs[i].rbody # "open")
-  /\ Check(l, "L8.NothingLeft.goroutine", last => e.leak = "")
+  /\ Check(l, "L8.NothingLeft", last => (e.leak = "" /\ \A i \in Idx(e) : e.reqs[i].rbody # "open"))
   \* ---- L9 Live
   /\ Check(l, "L9.CallsReturn", DelOpen(e) \/ \A j \in DOMAIN e.calls : e.calls[j].st = "pending" =>
         (ReqOwed(e, CallTagOf(e.calls[j].k)) \/ StreamOwed(e, CallTagOf(e.calls[j].k))))
@@ -176,6 +177,7 @@ Step(e) ==
   /\ Check(l, "L9.ConnectHonoursContext", (e.cancel > 0 /\ e.n >= e.cancel /\ dels \cap {i \in Idx(e) : e.reqs[i].st = "open"} = {})
         => e.conn # "running")
   /\ Check(l, "L9.AllOver", last => (e.conn \in {"none", "ok", "err"}))
+  /\ Check(l, "L9.AllOver", last => (\A i \in Idx(e) : e.reqs[i].st \notin {"open", "auth"}))
   /\ Check(l, "L9.AllOver", last => (\A j1 \in DOMAIN e.calls : e.calls[j1].st = "done"))
   /\ Check(l, "L9.AllOver", last => (\A j2 \in DOMAIN e.notifs : e.notifs[j2].st = "done"))
   /\ Check(l, "L9.AllOver", (last /\ e.conn = "ok") => (e.closeret = e.closeiss /\ e.closeiss > 0 /\ e.waitret))
